@@ -1739,7 +1739,7 @@ pub fn run(args: &Args, out: &mut Out) {
         return;
     }
     let thorough = args.thorough();
-    let n_sources = args.n.unwrap_or(if thorough { 5000 } else { 300 });
+    let n_sources = args.n.unwrap_or(if thorough { 5000 } else { 500 });
     let per_source = if thorough { 12 } else { 9 };
     let mut rng = Rng::new(args.seed);
     let mut sample_files: Vec<Files> = Vec::new();
